@@ -59,6 +59,31 @@ CLAIMS = {
             "accepted schedule is bounded by 3 x keys + 4 steps per request and a stuck world is a finished one); refutation without the "
             "locker-wide mutex ((a,b)/(b,a) deadlock). Correspondence as C04 with opposite-order batches and steered lock acquisition, plus "
             "sustained load under a watchdog", "5 C15"),
+    "C12": ("Theorems C12_threshold_bounds (generation is refused unless n/2 < t <= n), C12_success_is_consistent (a generation that reports "
+            "success - over any network behaviour - left every participant with the account, the returned composite key as its vector's first "
+            "entry, a share consistent with that vector, the requested threshold, no open generation), and in mathcomp over an arbitrary field "
+            "C12_algebra / C12_threshold_signature (any t participants' shares or partial signatures recover the aggregate secret / signature; "
+            "every share passes the Feldman check against the aggregate vector) and C12_fewer_shares_reveal_nothing. PARTIAL: see "
+            "Properties/C12.v. Correspondence: real clusters, every (n, t) in and out of range, initiators, commit-reply orders; the model is "
+            "run on the recovered dealt polynomials; every t- and (t-1)-subset is combined with the real BLS library; sign and list at once", "5 C12"),
+    "C13": ("Theorems C13_invalid_contribution_rejected, C13_failed_exchange_creates_no_account + C13_exchange_fails (any lost / refused "
+            "prepare or execute, any lost, error or rejected swap, for every network behaviour: error, and every instance's accounts "
+            "unchanged), C13_no_crash (no behaviour of the network reaches the out-of-range index); refutation for the pinned receiving side "
+            "(F4, fixed). Correspondence: real clusters, every message position x fault kind for every permitted (n, t); error, wallets and "
+            "panics compared with the model run on the same polynomials and altered messages", "5 C13"),
+    "C14": ("Theorem C14_conflicting_duties_one_threshold: for every (n, t) key generation accepts, every cluster of n instances (any "
+            "configurations and prior stores), every routing / repetition / order of requests and every pair of conflicting duties, no t "
+            "instances signed one while t instances signed the other (per-instance C01/C02 + quorum intersection); refutation without the "
+            "majority rule. Correspondence: real clusters after a real key generation, conflicting duties routed to arbitrary subsets; "
+            "per-instance steps against the C01/C02 model and a cluster monitor that counts valid partial signatures per duty", "5 C14"),
+    "C16": ("Theorems C16_only_peers, C16_stranger_refused, C16_peer_honoured, C16_strangers_change_nothing (over every history, deleting "
+            "the messages of non-peers changes neither the final table and accounts nor any reply to a peer), C16_share_goes_to_its_owner; "
+            "correspondence at the real receiver handlers over caller identities x five messages x session states; share ownership checked "
+            "with the BLS library for every (replier, caller) pair", "5 C16"),
+    "C17": ("Theorems C17_one_session_per_name, C17_prepare_while_active, C17_refused_without_session, C17_commit_needs_everyone, "
+            "C17_gone_afterwards, C17_new_generation_may_start over every event sequence of the session-table model (logical clock); "
+            "correspondence after every event of generated sequences on a real instance with cooperating real peers and real expiry: reply "
+            "class, generation table, wallet contents; the lifecycle is also judged directly on the implementation's table", "5 C17"),
     "C18": ("Theorems C18_listing_sound_and_complete (membership in the answer <=> requested known wallet, account present in base or "
             "overlay, name matches, Access permitted), C18_wallet_accounts, C18_created_account_listed; correspondence of the real lister "
             "(service and gRPC handler) as a multiset, before and after dynamic account creation; soundness and completeness also "
@@ -73,7 +98,7 @@ def main():
         "setup_cmd": "bin/setup",
         "hooks": {"guard": "verif",
                   "enable": "go build -tags verif (the harness module in /verif/harness replaces github.com/attestantio/dirk with /repo)",
-                  "baseline_off_cmd": base["cmd"], "source_commits": ["e8474e7"], "add_only": True},
+                  "baseline_off_cmd": base["cmd"], "source_commits": ["e8474e7", "25a2252", "62a60cd"], "add_only": True},
         "engines": [
             {"name": "coq-model", "path": "coq", "serves_properties": sorted(CLAIMS),
              "kind_free_text": "hand-written Gallina model + theorems (Coq 8.16.1), checked by make/coqc"},
